@@ -12,6 +12,19 @@ GROUP = dict(name='sim', sources=['h_sim.cpp'],
              driver='sim', libs=())
 
 
+# the sample-mean workers at sizes whose double loops take billions of iterations: optimised build, no sanitizers, thorough tier only
+GROUP_FAST = dict(name='simfast', sources=['h_simfast.cpp'], repo_sources=['mode.cpp', 'sample.cpp', 'util/Pauli.C', 'util/random.C', 'util/true_math.c'],
+                  driver=None, libs=(), flags=('-O2',), sanitize=False, replay_prefix=('o.c06.bign',))
+
+
+def gen_fast_c06(g, tier):
+    cs = []
+    sizes = [1000, 65537] if tier == 'quick' else [1000, 65535, 65536, 65537, 70001]
+    for n in sizes:
+        cs.append(Case('o.c06.bign %d %d %s' % (n, g.choice([0, 1]), dhex(g.r.uniform(0.2, 3))), 'orc', 'worker-size-%s' % ('big' if n > 4096 else 'moderate'), check=small_hex_check(1e-4)))   # 4e9 terms are summed naively: the sum itself carries about 1e-7
+    return cs
+
+
 def hexes(xs): return ' '.join(dhex(x) for x in xs)
 
 
@@ -66,6 +79,14 @@ def gen_C01(g, tier):
             b = g.choice(['lin', 'cir', 'ell %s %s' % (dhex(g.r.uniform(-1.5, 1.5)), dhex(g.r.uniform(-0.7, 0.7)))])
             steps.append('%s %s' % (b, hexes(s0 if g.random() < 0.6 else g.choice(mids))))
         cs.append(Case('o.c01.basis seq %d %s' % (k, ' '.join(steps)), 'orc', 'basis-history', check=flags_then_small(1, 1e-12)))
+    # the same coherency matrix requested through different Stokes vectors: after a change between the named bases, the vector
+    # whose components are the cyclic permutation of the previous one describes the same state
+    for _ in range(6 if tier == 'quick' else 100):
+        s0 = g.choice(mids); I, a, b, c = s0
+        rot1, rot2 = [I, b, c, a], [I, c, a, b]
+        for seq in ((('lin', s0), ('cir', rot1)), (('lin', s0), ('cir', rot2)), (('cir', s0), ('lin', rot1)), (('cir', s0), ('lin', rot2)),
+                    (('lin', s0), ('cir', rot1), ('lin', s0)), (('lin', s0), ('cir', rot2), ('lin', rot1))):
+            cs.append(Case('o.c01.basis seq %d %s' % (len(seq), ' '.join('%s %s' % (bb, hexes(v)) for bb, v in seq)), 'orc', 'basis-history-same-state', check=flags_then_small(1, 1e-12)))
     return cs
 
 
@@ -268,6 +289,11 @@ def gen_C08(g, tier):
         while len(pat) < n:
             pat += [g.choice('AB')] * g.randint(1, 12)
         cs.append(Case('o.c08.pairing %s' % ''.join(pat[:n]), 'orc', 'pairing-long'))
+    # one consumer far ahead of the other (queues of tens of thousands of pending factors)
+    for lead in ([65537, 200000] if tier == 'quick' else [1000, 65535, 65536, 65537, 70000, 200000, 1048577]):
+        for first in 'AB':
+            other = 'B' if first == 'A' else 'A'
+            cs.append(Case('o.c08.pairing %s' % (first * lead + other * (lead + 3) + first * 5), 'orc', 'pairing-long-lead'))
     for which in (0, 1):
         for tries in (1, 2, 3):
             for _ in range(2 if tier == 'quick' else 20):
